@@ -169,8 +169,8 @@ def run(ctx):
         dynmon.install(patch, sink)
         shapes = [(3, 3), (2, 4)] + ([(1, 1), (1, 3), (3, 1), (4, 4)] if ctx.thorough else [])
         exhaustive(ctx, shapes)
-        turn_algebra(ctx, ctx.pick(40, 2000))
-        n = ctx.pick(60, 4000)
+        turn_algebra(ctx, ctx.pick(100, 2000))
+        n = ctx.pick(240, 4000)
         for state, cat, rng in dyndrive.random_function_sweep(ctx, 'C08sweep', n):
             y, x = gen.front_of(state)
             if not gen.in_grid(state, y, x) or type(state.grid[y, x]) is not Floor:
